@@ -35,6 +35,7 @@ func runC02(p *eng.Prog, r *eng.Report, tier string) {
 	jidAppendsFresh(c, "C02.12")
 	c02TeeWrapsWhatItWasGiven(c, "C02.13")
 	negotiatorMaskFromFeatures(c, "C02.19")
+	newLayerOnlyAtRestart(c, "C02.20")
 	firstParam := ""
 	nf, call := negotiateSite(c, "C01.1")
 	if nf != nil {
@@ -753,4 +754,30 @@ func negotiatorMaskFromFeatures(c *cx, id string) {
 		c.r.Check(id, f, "mask returned by the negotiator", "P: the returned mask is the mask variable (negotiateFeatures' result or zero)", rs.Pos(), bad == "", "the mask is "+bad+": the negotiator reports state bits no feature produced")
 	}
 	c.r.Floor(id, "returns of the negotiator closure", n, 5)
+}
+
+// newLayerOnlyAtRestart (C01.24 / C02.20): negotiateSession takes every
+// connection the negotiator returns for a stream restart: it clears the
+// per-stream sets (features seen, features negotiated) and builds fresh
+// coders. The default negotiator returns a connection of its own making - the
+// tee - only where a stream is about to be opened anyway: every call of
+// newTeeConn in the negotiator closure is dominated by nState.doRestart. A tee
+// that a later StreamConfig call switches on is otherwise wrapped in the
+// middle of a stream and the features negotiated on that stream are forgotten
+// (F133: a feature was negotiated twice on one stream).
+func newLayerOnlyAtRestart(c *cx, id string) {
+	nf := c.fn(id, "", "negotiator")
+	if nf == nil {
+		return
+	}
+	f := c.lit(id, nf, 1)
+	if f == nil {
+		return
+	}
+	n := 0
+	for _, cl := range f.Calls("xmpp.newTeeConn") {
+		n++
+		c.domAny(id, f, cl, "tee connection created", []string{"*.doRestart"})
+	}
+	c.r.Floor(id, "tee connections created by the negotiator", n, 1)
 }
